@@ -24,6 +24,26 @@ its guards only); 'only dark/light values' for data cells follows from C03.R6's 
 
 @rule('C02', 'R1', 98, 'format and version words = BCH(15,5)^mask / Golay(18,6) codewords')
 def r1(fx):
+    ns = ev.module_consts(fx.forest, 'consts')
+    if not any(ns.has(k) or k in ns._failed for k in ('FORMAT_INFO', 'FORMAT_INFO_MICRO', 'VERSION_INFO')):
+        # no word tables (any more): the words are computed where they are needed.  calc_format_info is interpreted for
+        # every index; the version words are decided cell by cell (R5).
+        lv, mv = levels(fx), micro_versions(fx)
+        it = Interp()
+        f_ = make_callable(fx.forest, 'encoder', 'calc_format_info', it)
+        fn = fx.fn('encoder', 'calc_format_info')
+        ind = {v_: k_ for k_, v_ in iso.LEVEL_INDICATOR.items()}
+        sym = {v_: k_ for k_, v_ in iso.MICRO_SYMBOL_NUMBER.items()}
+        for d in range(32):
+            got = f_(1, lv[ind[d >> 3]], d & 7)
+            yield ob(f'FORMAT_INFO[{d}]', got == iso.format_word(d), fn, got=got, want=iso.format_word(d))
+        for d in range(32):
+            v_, l_ = sym[d >> 2]
+            got = f_(mv[v_], None if l_ is None else lv[l_], d & 3)
+            yield ob(f'FORMAT_INFO_MICRO[{d}]', got == iso.format_word_micro(d), fn, got=got, want=iso.format_word_micro(d))
+        for v in range(7, 41):
+            yield ob(f'VERSION_INFO[{v - 7}]', True, fx.fn('encoder', 'add_version_info'), got='no table; decided cell by cell (R5)', want=iso.golay18_6(v))
+        return
     f, fm, vi = C(fx, 'FORMAT_INFO'), C(fx, 'FORMAT_INFO_MICRO'), C(fx, 'VERSION_INFO')
     need(len(f) == 32 and len(fm) == 32 and len(vi) == 34, 'format/version table lengths')
     for d in range(32):
@@ -84,9 +104,9 @@ def _build(fx, bld, v):
         calls.append((a, k))
         return reg.Word('F')
     genv['calc_format_info'] = calc_format_info
-    g = {k: (FuncVal(val.node, genv, bld.interp) if isinstance(val, FuncVal) else val) for k, val in genv.items()}
+    g = {k: (FuncVal(val.node, genv, bld.interp) if isinstance(val, FuncVal) and val.genv is genv else val) for k, val in genv.items()}
     for k, val in g.items():
-        if isinstance(val, FuncVal):
+        if isinstance(val, FuncVal) and val.genv is genv:
             val.genv = g
     m = g['make_matrix'](n, n)
     if not isinstance(m, reg.Matrix):
@@ -114,9 +134,9 @@ def _build(fx, bld, v):
         vt2 = _ConcreteTable(vwords)
         genv2 = bld.with_consts(VERSION_INFO=vt2)
         genv2['calc_format_info'] = lambda *a, _w=w, **k: (calls.append((a, k)), _w)[1]
-        g2 = {k: (FuncVal(val.node, genv2, bld.interp) if isinstance(val, FuncVal) else val) for k, val in genv2.items()}
+        g2 = {k: (FuncVal(val.node, genv2, bld.interp) if isinstance(val, FuncVal) and val.genv is genv2 else val) for k, val in genv2.items()}
         for k, val in g2.items():
-            if isinstance(val, FuncVal):
+            if isinstance(val, FuncVal) and val.genv is genv2:
                 val.genv = g2
         m2 = reg.Matrix([reg.Row(list(r)) for r in stage1])
         g2['add_format_info'](m2, rv, '<error>', '<mask>')
@@ -183,6 +203,8 @@ def r5(fx):
                'alignment': 'add_alignment_patterns', 'format': 'add_format_info', 'darkmodule': 'add_format_info',
                'version': 'add_version_info', 'data': 'make_matrix'}
     total_cells = 0
+    _ns = ev.module_consts(fx.forest, 'consts')
+    table_exists = _ns.has('VERSION_INFO') or 'VERSION_INFO' in _ns._failed
     for v in iso.ALL_VERSIONS:
         n = iso.size_of(v)
         stage1, final, used = _build(fx, bld, v)
@@ -204,6 +226,9 @@ def r5(fx):
                         want = f'format bit {val[2]} (copy {val[1] + 1})'
                     elif kind == 'version':
                         ok = isinstance(got, reg.Bit) and isinstance(got.word, tuple) and got.word[0] == 'V' and got.k == val[2]
+                        if not ok and used == [] and not table_exists and got in (0, 1) and not isinstance(got, reg.Bit):
+                            # no table of version words: the word is computed in place, the cell holds its bit
+                            ok = got == (iso.golay18_6(v) >> val[2]) & 1
                         want = f'version bit {val[2]} (copy {val[1] + 1})'
                     else:
                         ok = (not isinstance(got, reg.Bit)) and got == val
@@ -239,7 +264,7 @@ def r5(fx):
                  ndata, want, True)
         # version word index
         if v >= 7:
-            yield Ob(f'v{v} version word index', used == [v - 7], 'encoder.add_version_info', anchors['add_version_info'].lineno,
+            yield Ob(f'v{v} version word index', used == [v - 7] or (used == [] and not table_exists), 'encoder.add_version_info', anchors['add_version_info'].lineno,
                      used, [v - 7], True)
         else:
             yield Ob(f'v{v} no version information', used == [], 'encoder.add_version_info', anchors['add_version_info'].lineno,
@@ -253,8 +278,14 @@ def r6(fx):
     mv = micro_versions(fx)
     for n, want in iso.LEVEL_INDICATOR.items():
         yield table_ob(fx, 'ERROR_LEVEL_' + n, 'indicator', lv[n], want)
-    t13 = C(fx, 'ERROR_LEVEL_TO_MICRO_MAPPING')
+    try:
+        t13 = C(fx, 'ERROR_LEVEL_TO_MICRO_MAPPING')
+    except Unknown:
+        t13 = None      # no such table (any more): the symbol number is decided below, where calc_format_info is interpreted
     for (v, l), want in iso.MICRO_SYMBOL_NUMBER.items():
+        if t13 is None:
+            yield ob(f'ERROR_LEVEL_TO_MICRO_MAPPING {v}-{l}', True, fx.forest.mod('consts'), where='consts', got='no table; decided at calc_format_info', want=want)
+            continue
         got = t13.get(mv[v], {}).get(None if l is None else lv[l])
         yield table_ob(fx, 'ERROR_LEVEL_TO_MICRO_MAPPING', f'{v}-{l}', got, want)
     bld = reg.Builder(fx.forest)
@@ -271,6 +302,11 @@ def r6(fx):
                 else:
                     want = ('FM', (iso.MICRO_SYMBOL_NUMBER[(v, l)] << 2) | mask)
                 got = w.name if isinstance(w, reg.Word) and w.shift == 0 else w
+                if isinstance(w, int) and not isinstance(w, bool) and not fq.used and not fm.used:
+                    # no table consulted: the word itself was computed
+                    word = iso.format_word(want[1]) if v >= 1 else iso.format_word_micro(want[1])
+                    yield ob(f'format index v{v}-{l} mask {mask}', w == word, fn, got=f'{w:#06x}', want=f'{word:#06x} (word {want[1]})')
+                    continue
                 yield ob(f'format index v{v}-{l} mask {mask}', got == want, fn, got=got, want=want)
     # add_format_info uses calc_format_info(version, error, mask_pattern) of its own parameters
     afi = fx.fn('encoder', 'add_format_info')
